@@ -380,5 +380,5 @@ _GENDEC_CLAIM = (" REGENERATED MODELS: the decoders of %d layers are RE-TRANSLAT
                  "to a decoder breaks a proof obligation at build time." % GENDEC_LAYERS)
 for _p in ("C05", "C07", "C17"):
     PROPS[_p]["claim"] += _GENDEC_CLAIM
-    PROPS[_p]["proofs"] = PROPS[_p]["proofs"] + ["Bmc.Proofs.GenDec"]
+    PROPS[_p]["proofs"] = PROPS[_p]["proofs"] + ["Bmc.Proofs.GenDec.TranslatedOk", "Bmc.Proofs.GenDec.ReserveSDRRepositoryRsp", "Bmc.Proofs.GenDec.GetSystemGUIDRsp", "Bmc.Proofs.GenDec.SetSessionPrivilegeLevelRsp", "Bmc.Proofs.GenDec.GetSDRRsp", "Bmc.Proofs.GenDec.SDR", "Bmc.Proofs.GenDec.GetSensorReadingRsp", "Bmc.Proofs.GenDec.GetChannelCipherSuitesRsp", "Bmc.Proofs.GenDec.GetChannelAuthenticationCapabilitiesRsp", "Bmc.Proofs.GenDec.GetSDRRepositoryInfoRsp", "Bmc.Proofs.GenDec.GetPowerReadingRsp", "Bmc.Proofs.GenDec.GetChassisStatusRsp", "Bmc.Proofs.GenDec.GetDeviceIDRsp", "Bmc.Proofs.GenDec.RAKPMessage4", "Bmc.Proofs.GenDec.RAKPMessage2", "Bmc.Proofs.GenDec.RAKPMessage1", "Bmc.Proofs.GenDec.V1Session", "Bmc.Proofs.GenDec.GetSessionInfoRsp", "Bmc.Proofs.GenDec.OpenSessionRsp", "Bmc.Proofs.GenDec.GetDCMICapabilitiesInfoManageabilityAccessAttrsRsp", "Bmc.Proofs.GenDec.GetDCMICapabilitiesInfoOptionalPlatformAttrsRsp", "Bmc.Proofs.GenDec.GetDCMICapabilitiesInfoSupportedCapabilitiesRsp", "Bmc.Proofs.GenDec.GetDCMICapabilitiesInfoMandatoryPlatformAttrsRsp", "Bmc.Proofs.GenDec.SessionSelector", "Bmc.Proofs.GenDec.Message", "Bmc.Proofs.GenDec.GetDCMICapabilitiesInfoEnhancedSystemPowerStatisticsAttrsRsp", "Bmc.Proofs.GenDec.GetDCMISensorInfoRsp"]
     PROPS[_p]["modelled"] = PROPS[_p]["modelled"] + ["layers decgen gives up on (listed in Gen/Dec.lean: gaveUp, with reasons) stay hand models tied by correspondence only"]
